@@ -128,6 +128,8 @@ def local_effects(func, typer):
                     continue
                 effects.append(Effect("mutation", func, n, "mutating call %s" % norm(f)))
                 continue
+            if res is None and isinstance(f, ast.Name) and f.id in (set(T.PURE_BUILTINS) | set(T.EXC_BUILTINS)) and f.id not in func.params:
+                continue  # a builtin in code the type inference found unreachable
             if res is None:
                 effects.append(Effect("unknowncall", func, n, "unresolved call %s" % norm(f)))
             elif res.kind == "hook":
